@@ -175,6 +175,9 @@ func main() {
 		secrets: map[int]*big.Int{1: randBits(rng, 250), 2: randBits(rng, 250)},
 		ctx:     map[int]*big.Int{0: big.NewInt(0), 1: big.NewInt(1), 2: randBits(rng, 200)},
 		nonce:   map[int]*big.Int{0: big.NewInt(0), 1: randBits(rng, 80), 2: randBits(rng, 80)}}
+	// value 3 = the negation of value 1
+	w.ctx[3] = new(big.Int).Neg(w.ctx[1])
+	w.nonce[3] = new(big.Int).Neg(w.nonce[1])
 	// flipping one bit is the minimal change of context/nonce
 	if a.Seed%2 == 0 {
 		w.nonce[2] = big.Convert(new(gobig.Int).Xor(w.nonce[1].Go(), gobig.NewInt(1)))
